@@ -1,6 +1,6 @@
 #!/bin/sh
 # usage: dbg.sh <ID> <tier> [extra vharness args]  — single-process run with per-item log
-export GOFLAGS=-mod=mod GOPROXY=off GOSUMDB=off GOTOOLCHAIN=local
+export GOFLAGS=-mod=mod GOPROXY=off GOSUMDB=off GOTOOLCHAIN=local GODEBUG=goindex=0
 rm -rf /tmp/dbg && mkdir -p /tmp/dbg
 /verif/bin/vrewrite -out /tmp/dbg -hooks /verif/hooks -extra /verif/extra batch concurrencylimiter reactive graphql graphql/schemabuilder federation sqlgen livesql || exit 2
 (cd /verif/engine && go build -tags verif -overlay /tmp/dbg/overlay.json -o /tmp/dbg/vharness ./cmd/vharness) || exit 2
